@@ -125,6 +125,8 @@ STAGES.update({
                                                         SRCS='<<"seeker", "chunk1", "chunk3", "chunk57", "reader", "chunk7">>')),
             ('part-headers', 'MimeBuild', cfg(MAXP='2', MAXE='1', MAXA='1', ENCS='{"qp"}', CCS='<<"crlf">>', PDESCS='{"", "plain", "long", "utf8", "longutf8"}',
                                               FDESCS='{"", "long", "utf8", "longutf8"}', FNAMES='{"", "long", "utf8", "dotted"}')),
+            # the header sections of messages with a PGP/MIME type are generated by the library too
+            ('pgp-types', 'MimeBuild', cfg(MAXP='2', MAXE='0', MAXA='1', ENCS='{"qp"}', CCS='<<"crlf">>', PGPS='{"encrypted", "signed"}', STYLES='{"", "set"}', BOUNDARIES='{"", "len42"}')),
             # boundaries of the caller of every length class: the multipart Content-Type field must stay foldable
             ('caller-boundary-lengths', 'MimeBuild', cfg(MAXP='2', MAXE='1', MAXA='1', ENCS='{"qp"}', CCS='<<"crlf">>', STYLES='{"", "set"}',
                                                          BOUNDARIES='{"len1", "len20", "len34", "len38", "len42", "len47", "len52", "len60", "len70"}')),
